@@ -4,20 +4,20 @@ CONSTANTS
   C0 = 2
   Sp0 = 4
   MaxBody = 3
-  Widths = {2, 3}
+  Widths = {3}
   Ks = {1, 3}
   BNs = {FALSE, TRUE}
-  Biases = {TRUE, FALSE}
+  Biases = {TRUE}
   AllowDw = TRUE
   AllowAdd = TRUE
   AllowPool = TRUE
   AllowCat = FALSE
   AllowSig = FALSE
   HeadW = 2
-  Folds = {FALSE, TRUE}
+  Folds = {FALSE}
   MaxRounds = 1
   TimeChoices = "open"
-  TupMode = "few"
+  TupMode = "one"
   SelMode = "rot"
   Backends = {"match", "maupiti"}
   LastStage = "int"
